@@ -11,7 +11,7 @@
     result iff the predicate holds for it; order and multiplicity are those of the vertex list).
     [tol] stands for [constants.TOL]: it is a parameter of the model (its current value is
     tabulated into Gen/C18/Tables.v and used by the correspondence only). *)
-From Coq Require Import Reals List Bool QArith.
+From Coq Require Import Reals List Bool ZArith.
 From CB Require Import Base.Vec3.
 Import ListNotations.
 
@@ -50,31 +50,32 @@ Definition is_point_on_plane (tol : R) (origin normal point : vec) : bool :=
 Definition find_on_plane (tol : R) (vs : list vec) (origin normal : vec) : list vec :=
   filter (is_point_on_plane tol origin normal) vs.
 
-(** * Rational part: the round-shape finder.
+(** * Integer part: the round-shape finder.
 
-    Positions are exact rationals (binary64 values are dyadic).  [norm(a - b) < tol] is decided
-    without a square root as [|a-b|^2 < tol^2] (for [0 < tol]); this is the only deviation from a
-    literal transcription and is justified by [Proofs/C18_Finder.v: norm_lt_iff_sq]. *)
-Open Scope Q_scope.
+    Positions are binary64 values, i.e. dyadic rationals.  The harness writes every number of one
+    case as an integer multiple of one common unit [u = 2^-e] (position = mantissa * u, TOL = T * u);
+    the model works on the integer mantissas, exactly.  [norm(a - b) < TOL] is decided without a
+    square root as [|a-b|^2 < T^2] (for [0 < T]); this is the only deviation from a literal
+    transcription and is justified by [Proofs/C18_Finder.v: znear_real]. *)
+Open Scope Z_scope.
 
-Definition qvec := (Q * Q * Q)%type.
-Definition qsub (a b : qvec) : qvec :=
+Definition zvec := (Z * Z * Z)%type.
+Definition zsub (a b : zvec) : zvec :=
   let '(a1, a2, a3) := a in let '(b1, b2, b3) := b in (a1 - b1, a2 - b2, a3 - b3).
-Definition qdot (a b : qvec) : Q :=
+Definition zdot (a b : zvec) : Z :=
   let '(a1, a2, a3) := a in let '(b1, b2, b3) := b in a1 * b1 + a2 * b2 + a3 * b3.
-Definition qdist2 (a b : qvec) : Q := qdot (qsub a b) (qsub a b).
-Definition Qltb (a b : Q) : bool := negb (Qle_bool b a).
+Definition zdist2 (a b : zvec) : Z := zdot (zsub a b) (zsub a b).
 
 (** [norm(vertex.position - position) < TOL] *)
-Definition qnear (tol : Q) (p v : qvec) : bool := Qltb (qdist2 v p) (tol * tol).
+Definition znear (T : Z) (p v : zvec) : bool := zdist2 v p <? T * T.
 
 (** a vertex ends up in the set built by [_find_from_points(points)] iff it is near one of them *)
-Definition found_from_points (tol : Q) (points : list qvec) (v : qvec) : bool :=
-  existsb (fun p => qnear tol p v) points.
+Definition found_from_points (T : Z) (points : list zvec) (v : zvec) : bool :=
+  existsb (fun p => znear T p v) points.
 
 (** ... and in the set built by [_find_from_faces(faces)] iff it is found from one face's points *)
-Definition found_from_faces (tol : Q) (faces : list (list qvec)) (v : qvec) : bool :=
-  existsb (fun f => found_from_points tol f v) faces.
+Definition found_from_faces (T : Z) (faces : list (list zvec)) (v : zvec) : bool :=
+  existsb (fun f => found_from_points T f v) faces.
 
 (** the sets are represented by the indices (positions in [mesh.vertices]) of their members *)
 Fixpoint select_idx {A} (f : A -> bool) (l : list A) (i : nat) : list nat :=
@@ -84,9 +85,12 @@ Fixpoint select_idx {A} (f : A -> bool) (l : list A) (i : nat) : list nat :=
   end.
 
 (** [RoundSolidFinder.find_core(end_face)]: [core] = faces of [sketch.core] of the chosen end *)
-Definition find_core (tol : Q) (vs : list qvec) (core : list (list qvec)) : list nat :=
-  select_idx (found_from_faces tol core) vs 0.
+Definition find_core (T : Z) (vs : list zvec) (core : list (list zvec)) : list nat :=
+  select_idx (found_from_faces T core) vs 0.
 
 (** [RoundSolidFinder.find_shell(end_face)] = shell vertices minus core vertices *)
-Definition find_shell (tol : Q) (vs : list qvec) (core shell : list (list qvec)) : list nat :=
-  select_idx (fun v => found_from_faces tol shell v && negb (found_from_faces tol core v)) vs 0.
+Definition find_shell (T : Z) (vs : list zvec) (core shell : list (list zvec)) : list nat :=
+  select_idx (fun v => found_from_faces T shell v && negb (found_from_faces T core v)) vs 0.
+
+(** the real point denoted by integer mantissas at unit [u] *)
+Definition zR (u : R) (v : zvec) : vec := let '(a, b, c) := v in (IZR a * u, IZR b * u, IZR c * u)%R.
